@@ -1,0 +1,112 @@
+//go:build verif
+
+// Contracts for the deductive verifier in /verif (gvc). Comment-only: compiled only under the build
+// tag `verif`, contains no code.
+package immutable
+
+// ---- C01: the @immutable checker -------------------------------------------------------------------------------
+// The walk context is usable: pass and package present, a current function name is always set (possibly "").
+//@ pure func ctxOK(ctx *checkerContext) bool = ctx != nil && ctx.pass != nil && ctx.pass.Pkg != nil && ctx.currentFunction != nil
+
+// The code being walked is inside a function listed as @constructor of (p, t), in t's own package.
+//@ macro func ctxInCtor(ctx *checkerContext, p string, t string) bool = ctx.pass.Pkg.Path() == p && contains(tarList(ctx.constructors, p, t), *ctx.currentFunction)
+
+// x.f is a write target that must be reported: x's defined type is @immutable, f is not @mutable, not in a constructor.
+//@ pure func fieldHit(ctx *checkerContext, sel *ast.SelectorExpr) bool = isDef(ctx.pass.TypesInfo.TypeOf(sel.X)) && tmHas(ctx.immutableTypes, defPkg(ctx.pass.TypesInfo.TypeOf(sel.X)), defName(ctx.pass.TypesInfo.TypeOf(sel.X))) && !ctxInCtor(ctx, defPkg(ctx.pass.TypesInfo.TypeOf(sel.X)), defName(ctx.pass.TypesInfo.TypeOf(sel.X))) && !contains(tarList(ctx.mutableFields, defPkg(ctx.pass.TypesInfo.TypeOf(sel.X)), defName(ctx.pass.TypesInfo.TypeOf(sel.X))), sel.Sel.Name)
+
+// *r is a write to the receiver of the enclosing method of an @immutable type, not in a constructor.
+//@ pure func recvHit(ctx *checkerContext, star *ast.StarExpr) bool = ctx.currentReceiver != nil && typeis(ast.Unparen(star.X), *ast.Ident) && cast(ast.Unparen(star.X), *ast.Ident).Name == ctx.currentReceiver.name && tmHas(ctx.immutableTypes, ctx.currentReceiver.pkgPath, ctx.currentReceiver.typeName) && !ctxInCtor(ctx, ctx.currentReceiver.pkgPath, ctx.currentReceiver.typeName)
+
+//@ func checkerContext.inConstructor
+//@   props C01 C10
+//@   requires ctxOK(ctx)
+//@   ensures result == ctxInCtor(ctx, pkgPath, typeName)
+//@   assigns nothing
+
+//@ func checkFieldAssignment
+//@   props C01 C13 C10
+//@   requires ctxOK(ctx)
+//@   fresh
+//@   ensures (result != nil) == fieldHit(ctx, selector)
+//@   ensures result != nil ==> result.Code == "IMM01" && result.Pos == selector.Pos() && result.Node == stmt && result.TypeName == defName(ctx.pass.TypesInfo.TypeOf(selector.X))
+//@   assigns nothing
+
+//@ func checkIndexAssignment
+//@   props C01 C13 C10
+//@   requires ctxOK(ctx)
+//@   fresh
+//@   ensures (result != nil) == (typeis(ast.Unparen(index.X), *ast.SelectorExpr) && fieldHit(ctx, cast(ast.Unparen(index.X), *ast.SelectorExpr)))
+//@   ensures result != nil ==> result.Code == "IMM04" && result.Pos == index.Pos() && result.Node == stmt
+//@   assigns nothing
+
+//@ func checkFieldIncDec
+//@   props C01 C13 C10
+//@   requires ctxOK(ctx)
+//@   fresh
+//@   ensures (result != nil) == fieldHit(ctx, selector)
+//@   ensures result != nil ==> result.Code == "IMM03" && result.Pos == node.Pos() && result.Node == node
+//@   assigns nothing
+
+//@ func checkReceiverIncDec
+//@   props C01 C10
+//@   requires ctxOK(ctx)
+//@   fresh
+//@   ensures (result != nil) == recvHit(ctx, star)
+//@   ensures result != nil ==> result.Code == "IMM03" && result.Pos == star.Pos() && result.Node == node
+//@   assigns nothing
+
+//@ func checkCompoundLHS
+//@   props C01 C13 C10
+//@   requires ctxOK(ctx)
+//@   fresh
+//@   ensures (result != nil) == (typeis(ast.Unparen(expr), *ast.SelectorExpr) && fieldHit(ctx, cast(ast.Unparen(expr), *ast.SelectorExpr)))
+//@   ensures result != nil ==> result.Code == "IMM02" && result.Pos == ast.Unparen(expr).Pos() && result.Node == stmt
+//@   assigns nothing
+
+//@ func checkReceiverReassignment
+//@   props C01 C10
+//@   requires ctxOK(ctx)
+//@   fresh
+//@   ensures (result != nil) == recvHit(ctx, star)
+//@   ensures result != nil ==> result.Code == "IMM01" && result.Pos == star.Pos() && result.Node == stmt
+//@   assigns nothing
+
+// What must be reported for one (unparenthesised) left-hand side e of a plain assignment: code and position.
+//@ pure func lhsViol(ctx *checkerContext, e ast.Expr, code string, pos token.Pos) bool = (typeis(e, *ast.SelectorExpr) && fieldHit(ctx, cast(e, *ast.SelectorExpr)) && code == "IMM01" && pos == e.Pos()) || (typeis(e, *ast.IndexExpr) && typeis(ast.Unparen(cast(e, *ast.IndexExpr).X), *ast.SelectorExpr) && fieldHit(ctx, cast(ast.Unparen(cast(e, *ast.IndexExpr).X), *ast.SelectorExpr)) && code == "IMM04" && pos == e.Pos()) || (typeis(e, *ast.StarExpr) && recvHit(ctx, cast(e, *ast.StarExpr)) && code == "IMM01" && pos == e.Pos())
+// ... of a compound assignment
+//@ pure func compoundViol(ctx *checkerContext, e ast.Expr, code string, pos token.Pos) bool = typeis(e, *ast.SelectorExpr) && fieldHit(ctx, cast(e, *ast.SelectorExpr)) && code == "IMM02" && pos == e.Pos()
+// ... of x++ / x-- with (unparenthesised) operand e, statement position sp
+//@ pure func incdecViol(ctx *checkerContext, e ast.Expr, sp token.Pos, code string, pos token.Pos) bool = (typeis(e, *ast.SelectorExpr) && fieldHit(ctx, cast(e, *ast.SelectorExpr)) && code == "IMM03" && pos == sp) || (typeis(e, *ast.StarExpr) && recvHit(ctx, cast(e, *ast.StarExpr)) && code == "IMM03" && pos == e.Pos())
+
+//@ func checkLHS
+//@   props C01 C10
+//@   requires ctxOK(ctx)
+//@   fresh
+//@   ensures result != nil ==> lhsViol(ctx, ast.Unparen(expr), result.Code, result.Pos) && result.Node == stmt
+//@   ensures result == nil ==> (forall code string, pos token.Pos :: !lhsViol(ctx, ast.Unparen(expr), code, pos))
+//@   assigns nothing
+
+//@ func checkAssignment
+//@   props C01 C10
+//@   requires ctxOK(ctx)
+//@   ensures forall j int :: 0 <= j && j < len(result) ==> result[j].Node == node && (exists i int :: 0 <= i && i < len(node.Lhs) && lhsViol(ctx, ast.Unparen(node.Lhs[i]), result[j].Code, result[j].Pos))
+//@   ensures forall i int, code string, pos token.Pos :: 0 <= i && i < len(node.Lhs) && lhsViol(ctx, ast.Unparen(node.Lhs[i]), code, pos) ==> (exists j int :: 0 <= j && j < len(result) && result[j].Code == code && result[j].Pos == pos)
+//@   assigns nothing
+//@   loop 1 invariant forall j int :: 0 <= j && j < len(violations) ==> violations[j].Node == node && (exists i int :: 0 <= i && i < $i && lhsViol(ctx, ast.Unparen(node.Lhs[i]), violations[j].Code, violations[j].Pos))
+//@   loop 1 invariant forall i int, code string, pos token.Pos :: 0 <= i && i < $i && lhsViol(ctx, ast.Unparen(node.Lhs[i]), code, pos) ==> (exists j int :: 0 <= j && j < len(violations) && violations[j].Code == code && violations[j].Pos == pos)
+
+//@ func checkCompoundAssignment
+//@   props C01 C10
+//@   requires ctxOK(ctx)
+//@   ensures forall j int :: 0 <= j && j < len(result) ==> result[j].Node == node && (exists i int :: 0 <= i && i < len(node.Lhs) && compoundViol(ctx, ast.Unparen(node.Lhs[i]), result[j].Code, result[j].Pos))
+//@   ensures forall i int, code string, pos token.Pos :: 0 <= i && i < len(node.Lhs) && compoundViol(ctx, ast.Unparen(node.Lhs[i]), code, pos) ==> (exists j int :: 0 <= j && j < len(result) && result[j].Code == code && result[j].Pos == pos)
+//@   assigns nothing
+//@   loop 1 invariant forall j int :: 0 <= j && j < len(violations) ==> violations[j].Node == node && (exists i int :: 0 <= i && i < $i && compoundViol(ctx, ast.Unparen(node.Lhs[i]), violations[j].Code, violations[j].Pos))
+//@   loop 1 invariant forall i int, code string, pos token.Pos :: 0 <= i && i < $i && compoundViol(ctx, ast.Unparen(node.Lhs[i]), code, pos) ==> (exists j int :: 0 <= j && j < len(violations) && violations[j].Code == code && violations[j].Pos == pos)
+
+//@ func checkIncDec
+//@   props C01 C10
+//@   requires ctxOK(ctx)
+//@   ensures forall j int :: 0 <= j && j < len(result) ==> result[j].Node == node && incdecViol(ctx, ast.Unparen(node.X), node.Pos(), result[j].Code, result[j].Pos)
+//@   ensures forall code string, pos token.Pos :: incdecViol(ctx, ast.Unparen(node.X), node.Pos(), code, pos) ==> (exists j int :: 0 <= j && j < len(result) && result[j].Code == code && result[j].Pos == pos)
+//@   assigns nothing
